@@ -150,6 +150,12 @@ func vTransOK(t pr.SDimensions) bool {
 //@   unclaimed call-makeBookmarkTree@1-pre1 "bookmark levels >= 1: established by the bookmark-level validator, not tracked through the page list"
 //@   unclaimed call-setMediaBoxes@1-pre1 "the bleed of a page is a validated non-negative length; the backend page is the one AddPage returned"
 //@   call AddPage#1 assert[media-box] scale != 0 ==> arg1 == -fl(page.Bleed.Left) && arg2 == -fl(page.Bleed.Top) && arg3 == page.Width + fl(page.Bleed.Left) + fl(page.Bleed.Right) && arg4 == page.Height + fl(page.Bleed.Top) + fl(page.Bleed.Bottom)
+// (loop 1 ranges over d.Pages: one iteration per laid-out page, in order)
+//@   loop 1 invariant[pages-added-so-far] calls(AddPage) == rangeindex + 1 && calls(CreateAnchors) == 0
+//@   loop 1 step[one-AddPage-per-page] calls(AddPage) == old(calls(AddPage)) + 1 && calls(Paint) == old(calls(Paint)) + 1
+//@   loop 1 exit[anchors-after-the-last-page] calls(AddPage) == rangeindex && calls(CreateAnchors) == 0
+//@   call CreateAnchors#1 assert[once] calls(CreateAnchors) == 1
+//@   call Paint#1 assert[page-painted-on-its-own-output-page] arg1 == outputPage && arg0 == page
 //@   call addHyperlinks#1 assert[links-of-this-page] arg1 == pagedLinks[rangeindex] && arg2 == outputPage
 //@   call scaleAnchors#1 assert[anchors-of-this-page] arg1 == pagedAnchors[rangeindex]
 //@   call CreateAnchors#1 assert[all-anchors] arg1 == pagedAnchors
